@@ -24,18 +24,19 @@ ASSUMPTIONS = ['world.testing/log.testing off; Python asserts enabled',
                'model-side non-termination (size smaller than one character) is represented by Raise OtherError and compared with an '
                'interrupted implementation call']
 LEVEL_TEXT = ('Coq theorems over an executable Gallina model of utils.str.byteTextWrap/splitBytes, ircutils.FormatContext/FormatParser/wrap, '
-              'NestedCommandsIrcProxy.reply arithmetic, _makeReply payload and Misc.more (the repaired code: fix commits for C12.F12, F13, F40, F41, F42): '
-              'for every word list and size>=4 byteTextWrap terminates, every chunk encodes to <= size bytes and the concatenation of the chunks is the '
-              'concatenation of the words (= the munged text for the closed splitter); the more-sequence is exactly the chunk list in order with the '
-              'remaining count; a payload within allowedLength gives a relayed line within 512 bytes for every prefix/target/nick, channel or query '
-              '(full); the more-reserve covers the suffix for 1..99 pending messages (refuted at 100); FormatContext.size covers what start/end add '
-              '(full); FormatParser.parse is total and wrap fails only by UnicodeError or non-termination below one character (full); chunk-fits and '
-              'visible-text of ircutils.wrap remain refuted by the colour/digit junction (F14, known finding).  The model is tied to the source by '
-              'regenerated constants/shapes and a differential run at unit level and against a live bot on every check.')
+              'NestedCommandsIrcProxy.reply (incl. private=/to=/notice= keywords, _getTarget, _makeReply) and Misc.more, mirroring the repaired code: '
+              'byteTextWrap terminates for size>=4, every chunk fits and the chunks concatenate to the words; the more-sequence is the chunk list in order '
+              'with the remaining count; END TO END for plain text (C12_reply_plain_end_to_end): for every configuration in env_ok (every plain reply in a '
+              'channel or query, private with to=), every mores setting in plain_dom and every non-empty text without control codes, the relayed lines are one '
+              'per chunk, each within 512 bytes once prefixed and untouched by takeMsg, the chunks are non-empty contiguous pieces spelling the (munged) text, '
+              'cut only at allowedLength*maximum characters; for formatted text every chunk fits and the visible text is preserved on the decidable domain '
+              'safe_cuts (no chunk starts with a digit/comma), refuted outside (F14); allowedLength is refuted outside env_ok (F43); the more-reserve holds '
+              'for 1..99 pending; FormatContext.size covers start/end; parse is total.  Tied to the source by regenerated constants/shapes and a differential '
+              'run at unit level and against a live bot on every check.')
 LEVEL_NOTE = ('Trusted: Coq kernel, gen_tables.py, extraction + OCaml driver, the Python harness, CPython textwrap/str.encode (explicit inputs / compared). '
-              'Partial: chunk-fits of ircutils.wrap is proved only for text without formatting codes (C12_chunk_fits_on_plain_partial); for formatted '
-              'text it is checked by the differential run and the direct oracle only; the accounting steps (allowedLength, suffix reserve, context size, '
-              'chunk budget) are proved separately, not composed into one end-to-end theorem.')
+              'Partial: the formatted-text theorems require text whose only blanks are spaces (munge s = s) and use the sufficient predicate '
+              '"no chunk starts with a digit or comma" rather than the exact junction condition; the end-to-end theorem is for plain text only and '
+              'bounds the number of chunks by 100 through a computed clause of plain_dom; reply.inPrivate/withNotice are modelled, action/error replies are not.')
 TECHNIQUE = 'Coq proof (induction over the wrap loop with a fuel/measure invariant) + regenerated tables + extracted-model differential correspondence incl. live bot'
 EXPLANATION = 'C12: model of byteTextWrap/wrap/reply/more; theorems in coq/C12/Props.v'
 
@@ -180,7 +181,8 @@ def junction(inp):
 
 
 CLASSES = {
-    'color_digit_junction': junction,
+    'color_digit_junction': lambda inp: junction(inp),
+    'reserve_for_wrong_recipient': lambda inp: reserve_mismatch(inp),
 }
 
 
@@ -324,9 +326,10 @@ def bot():
     class Emit(callbacks.Plugin):
         """replies with the string handed over by the harness"""
         payload = 'x'
+        kw = {}
 
         def emit(self, irc, msg, args):
-            irc.reply(Emit.payload)
+            irc.reply(Emit.payload, **Emit.kw)
     Emit.__module__ = 'Emit'
     conf.supybot.abuse.flood.command.setValue(False)
     conf.supybot.abuse.flood.command.invalid.setValue(False)
@@ -353,9 +356,41 @@ def drain(irc):
 def live_allowed(inp):
     if inp['length']:
         return inp['length']
-    a0 = inp['nick'] if inp['private'] else inp['chan']       # the recipient
     bl = lambda x: len(x.encode())
-    return 512 - 14 - bl(inp['botprefix']) - bl(a0) - ((bl(inp['nick']) + 2) if inp['prefixNick'] else 0)
+    return 512 - 14 - bl(inp['botprefix']) - bl(reserve_recipient(inp)) - ((bl(inp['nick']) + 2) if inp['prefixNick'] else 0)
+
+
+def reserve_recipient(inp):
+    """the recipient reply() reserves room for (its own rules, not _makeReply's)"""
+    arg0 = inp['botprefix'].split('!')[0] if inp['private'] else inp['chan']
+    to, kwp = inp.get('kwTo'), inp.get('kwPrivate', False)
+    target = to if (kwp and to) else arg0
+    return target if (kwp or to or not inp['private']) else inp['nick']
+
+
+def reply_env(inp):
+    """what _makeReply() really does: (target, nick prefix, command)"""
+    irc = bot()['irc']
+    public = not inp['private']
+    to = inp.get('kwTo')
+    to_pub = bool(to) and irc.isChannel(to)
+    priv = inp.get('kwPrivate', False) or inp.get('confInPrivate', False)
+    t0 = inp['chan'] if public else inp['nick']
+    t1 = (to if to_pub else t0) if to else t0
+    target = (to or inp['nick']) if priv else t1
+    tpub = to_pub if priv else ((to_pub or public) if to else public)
+    pref = ((to or inp['nick']) + ': ') if (inp['prefixNick'] and not priv and tpub and not to_pub) else ''
+    notice = inp.get('kwNotice', False) or inp.get('confWithNotice', False) or (not tpub and inp['noticePriv'])
+    return target, pref, 'NOTICE' if notice else 'PRIVMSG'
+
+
+def reserve_mismatch(inp):
+    """class of finding F43: what _makeReply() puts around the payload is more than reply() reserved"""
+    if inp.get('op') != 'live' or inp['length']:
+        return False
+    target, pref, cmd = reply_env(inp)
+    bl = lambda x: len(x.encode())
+    return bl(target) + bl(pref) + len(cmd) > bl(reserve_recipient(inp)) + 7 + ((bl(inp['nick']) + 2) if inp['prefixNick'] else 0)
 
 
 def live_run(inp, max_rounds=400):
@@ -373,6 +408,16 @@ def live_run(inp, max_rounds=400):
     r.mores.instant.setValue(inp['instant'])
     r.withNickPrefix.setValue(inp['prefixNick'])
     r.withNoticeWhenPrivate.setValue(inp['noticePriv'])
+    r.inPrivate.setValue(inp.get('confInPrivate', False))
+    r.withNotice.setValue(inp.get('confWithNotice', False))
+    kw = {}
+    if inp.get('kwPrivate'):
+        kw['private'] = True
+    if inp.get('kwTo'):
+        kw['to'] = inp['kwTo']
+    if inp.get('kwNotice'):
+        kw['notice'] = True
+    b['Emit'].kw = kw
     conf.supybot.plugins.Misc.mores.setValue(inp['number'])
     frm = '%s!u%d@h.example' % (inp['nick'], b['n'])
     to = botnick if inp['private'] else inp['chan']
@@ -395,7 +440,10 @@ def live_run(inp, max_rounds=400):
 def live_wire(inp, public, times):
     botnick = inp['botprefix'].split('!')[0]
     cfg = [inp['botprefix'], botnick if inp['private'] else inp['chan'], inp['nick'], public, inp['prefixNick'],
-           inp['noticePriv'], inp['mores'], inp['length'], inp['maximum'], inp['instant']]
+           inp['noticePriv'], inp['mores'], inp['length'], inp['maximum'], inp['instant'],
+           inp.get('kwPrivate', False), inp.get('confInPrivate', False), wire.opt(inp.get('kwTo')),
+           bool(inp.get('kwTo')) and bot()['irc'].isChannel(inp['kwTo']), inp.get('kwNotice', False),
+           inp.get('confWithNotice', False)]
     return [5, [cfg, inp['s'], inp['number'], times]]
 
 
@@ -423,7 +471,7 @@ def live_oracle(ctx, inp, public, rounds, ircutils):
     over = [len((head + m).encode()) for m in msgs if len((head + m).encode()) > 512]
     if over:
         ctx.fail(inp, 'relayed line of %r bytes (> 512)' % over)
-    target = inp['chan'] if public else inp['nick']
+    target, pref, _cmd = reply_env(inp)
     texts = []
     for i, m in enumerate(msgs):
         mo = re.match(r'(PRIVMSG|NOTICE) (\S+) :(.*)\r\n$', m, re.S)
@@ -431,11 +479,11 @@ def live_oracle(ctx, inp, public, rounds, ircutils):
             ctx.fail(inp, 'unexpected message %r' % m[:80])
             return
         p = mo.group(3)
-        if public and inp['prefixNick']:
-            if not p.startswith(inp['nick'] + ': '):
+        if pref:
+            if not p.startswith(pref):
                 ctx.fail(inp, 'nick prefix missing in %r' % p[:40])
                 return
-            p = p[len(inp['nick']) + 2:]
+            p = p[len(pref):]
         remaining = len(msgs) - 1 - i
         sm = SUFFIX.search(p)
         if remaining == 0:
@@ -486,6 +534,29 @@ def gen_live(rng, kind):
         inp['number'] = rng.choice([2, 3, 7])
     if rng.random() < 0.04:
         inp['mores'] = False
+    if kind == 'keywords':
+        # private= / to= / notice= replies, mostly given in a channel, by senders with nicks of 1..30
+        # characters, channel names of 2..30
+        inp['nick'] = 'n' * rng.choice([1, 2, 5, 9, 16, 22, 30])
+        inp['chan'] = '#' + 'c' * rng.choice([1, 2, 4, 8, 15, 29])
+        inp['private'] = rng.random() < 0.15
+        k2 = rng.random()
+        if k2 < 0.45:
+            inp['kwPrivate'] = True
+            if rng.random() < 0.4:
+                inp['kwTo'] = 'z' * rng.choice([1, 3, 9, 20, 30])
+        elif k2 < 0.7:
+            inp['kwTo'] = rng.choice(['z' * rng.choice([1, 3, 9, 20, 30]), '#' + 'o' * rng.choice([1, 5, 12, 29])])
+        elif k2 < 0.8:
+            inp['confInPrivate'] = True
+        if rng.random() < 0.3:
+            inp['kwNotice'] = True
+        if rng.random() < 0.1:
+            inp['confWithNotice'] = True
+        if rng.random() < 0.75:
+            inp['prefixNick'] = True
+        if inp['length'] > live_allowed(dict(inp, length=0)):
+            inp['length'] = 0
     allowed = live_allowed(inp)
     if kind == 'nonascii':
         inp['chan'] = rng.choice(['#é', '#日本語チャンネル', '#' + 'ü' * 20])
@@ -498,6 +569,9 @@ def gen_live(rng, kind):
     nchunks = rng.choice([1, 1, 2, 2, 3, 4, 6, 9]) if kind != 'many' else rng.choice([10, 11, 12, 15, 25, 55])
     if kind == 'many':
         tk = rng.choice(['plain', 'mb'])
+    if kind == 'keywords':
+        tk = rng.choice(['plain', 'plain', 'mb'])
+        nchunks = rng.choice([2, 3, 4])
     target_bytes = int(allowed * nchunks * rng.uniform(0.5, 1.0))
     maxword = rng.choice([12, 12, 12, 40, allowed + 50, 3 * allowed])
     if tk == 'junction':
@@ -517,6 +591,10 @@ def gen_live(rng, kind):
 
 # witnesses of the repaired defects C12.F40, F42, F41, F13, F12 (must stay green), then F14's
 LIVE_CORPUS = [
+    {'op': 'live', 'kind': 'corpus', 'botprefix': 'test!limnoria@bot.users.example.org', 'nick': 'a_rather_long_nickname', 'chan': '#c', 'private': False, 'prefixNick': True, 'noticePriv': True, 'mores': True, 'length': 0, 'maximum': 50, 'instant': 1, 'number': 1, 'kwPrivate': True, 's': 'yyyyyyyyyyyyyyyyyyyyyyyyyyyyyyyyyyyyyyyyyyyyyyyyyyyyyyyyyyyyyyyyyyyyyyyyyyyyyyyyyyyyyyyyyyyyyyyyyyyyyyyyyyyyyyyyyyyyyyyyyyyyyyyyyyyyyyyyyyyyyyyyyyyyyyyyyyyyyyyyyyyyyyyyyyyyyyyyyyyyyyyyyyyyyyyyyyyyyyyyyyyyyyyyyyyyyyyyyyyyyyyyyyyyyyyyyyyyyyyyyyyyyyyyyyyyyyyyyyyyyyyyyyyyyyyyyyyyyyyyyyyyyyyyyyyyyyyyyyyyyyyyyyyyyyyyyyyyyyyyyyyyyyyyyyyyyyyyyyyyyyyyyyyyyyyyyyyyyyyyyyyyyyyyyyyyyyyyyyyyyyyyyyyyyyyyyyyyyyyyyyyyyyyyyyyyyyyyyyyyyyyyyyyyyyyyyyyyyyyyyyyyyyyyyyyyyyyyyyyyyyyyyyyyyyyyyyyyyyyyyyyyyyyyyyyyyyyyyyyyyyyyyyyyyyyyyyyyyyyyyyyyyyyyyyyyyyyyyyyyyyyyyyyyyyyyyyyyyyyyyyyyyyyyyyyyyyyyyyyyyyyyyyyyyyyyyyyyyyyyyyyyyyyyyyyyyyyyyyyyyyyyyyyyyyyyyyyyyyyyyyyyyyyyyyyyyyyyyyyyyyyyyyyyyyyyyyyyyyyyyyyyyyyyyyyyyyyyyyyyyyyyyyyyyyyyyyyyyyyyyyyyyyyyyyyyyyyyyyyyyyyyyyyyyyyyyyyyyyyyyyyyyyyyyyyyyyyyyyyyyyyyyyyyyyyyyyyyyyyyyyyyyyyyyyyyyyyyyyyyyyyyyyyyyyyyyyyyyyyyyyyyyyyyyyyyyyyyyyyyyyyyyyyyyyyyyyyyyyyyyyyyyyyyyyyyyyyyyyyyyyyyyyyyyyyyyyyyyyyyyyyyyyyyyyyyyyyyyyyyyyyyyyyyyyyyyyyyyyyyyyyyyyyyyyyyyyyyyyyyyyyyyyyyyyyyyyyyyyyyyyyyyyyyyyyyyyyyyyyyyyyyyyyyyyyyyyyyyyyyyyyyyyyyyyyyyyyyyyyyyyyyyyyyyyyyyyyyyyyyyyyyyyyyyyyyyyyyyyyyyyyyyyyyyyyyyyyyyyyyyyyyyyyyyyyyyyyyyyyyyyyyyyyyyyyyyyyyyyyyyyyyyyyyyyyyyyyyyyyyyyyyyyyyyyyyyyyyyyyyyyyyyyyyyyyyyyyyyyyyyyyyyyyyyyyyyyyyyyyyyyyyyyyyyyyyyyyyyyyyyyyyyyyyyyyyyyyyyyyyyyyyyyyyyyyyyyyyyyyy'},   # private=True in a channel, long nick: fits only thanks to the nick-prefix reserve
+    {'op': 'live', 'kind': 'corpus', 'botprefix': 'test!limnoria@bot.users.example.org', 'nick': 'a_rather_long_nickname', 'chan': '#c', 'private': False, 'prefixNick': True, 'noticePriv': True, 'mores': True, 'length': 0, 'maximum': 50, 'instant': 1, 'number': 1, 'kwPrivate': True, 's': 'wordwordword wordwordword wordwordword wordwordword wordwordword wordwordword wordwordword wordwordword wordwordword wordwordword wordwordword wordwordword wordwordword wordwordword wordwordword wordwordword wordwordword wordwordword wordwordword wordwordword wordwordword wordwordword wordwordword wordwordword wordwordword wordwordword wordwordword wordwordword wordwordword wordwordword wordwordword wordwordword wordwordword wordwordword wordwordword wordwordword wordwordword wordwordword wordwordword wordwordword wordwordword wordwordword wordwordword wordwordword wordwordword wordwordword wordwordword wordwordword wordwordword wordwordword wordwordword wordwordword wordwordword wordwordword wordwordword wordwordword wordwordword wordwordword wordwordword wordwordword wordwordword wordwordword wordwordword wordwordword wordwordword wordwordword wordwordword wordwordword wordwordword wordwordword wordwordword wordwordword wordwordword wordwordword wordwordword wordwordword wordwordword wordwordword wordwordword wordwordword wordwordword wordwordword wordwordword wordwordword wordwordword wordwordword wordwordword wordwordword wordwordword wordwordword wordwordword wordwordword wordwordword wordwordword wordwordword wordwordword wordwordword wordwordword wordwordword wordwordword wordwordword wordwordword wordwordword wordwordword wordwordword wordwordword wordwordword wordwordword wordwordword wordwordword'},
+    {'op': 'live', 'kind': 'corpus', 'botprefix': 'test!limnoria@bot.users.example.org', 'nick': 'a_rather_long_nickname', 'chan': '#c', 'private': False, 'prefixNick': False, 'noticePriv': True, 'mores': True, 'length': 0, 'maximum': 50, 'instant': 1, 'number': 1, 'kwPrivate': True, 's': 'yyyyyyyyyyyyyyyyyyyyyyyyyyyyyyyyyyyyyyyyyyyyyyyyyyyyyyyyyyyyyyyyyyyyyyyyyyyyyyyyyyyyyyyyyyyyyyyyyyyyyyyyyyyyyyyyyyyyyyyyyyyyyyyyyyyyyyyyyyyyyyyyyyyyyyyyyyyyyyyyyyyyyyyyyyyyyyyyyyyyyyyyyyyyyyyyyyyyyyyyyyyyyyyyyyyyyyyyyyyyyyyyyyyyyyyyyyyyyyyyyyyyyyyyyyyyyyyyyyyyyyyyyyyyyyyyyyyyyyyyyyyyyyyyyyyyyyyyyyyyyyyyyyyyyyyyyyyyyyyyyyyyyyyyyyyyyyyyyyyyyyyyyyyyyyyyyyyyyyyyyyyyyyyyyyyyyyyyyyyyyyyyyyyyyyyyyyyyyyyyyyyyyyyyyyyyyyyyyyyyyyyyyyyyyyyyyyyyyyyyyyyyyyyyyyyyyyyyyyyyyyyyyyyyyyyyyyyyyyyyyyyyyyyyyyyyyyyyyyyyyyyyyyyyyyyyyyyyyyyyyyyyyyyyyyyyyyyyyyyyyyyyyyyyyyyyyyyyyyyyyyyyyyyyyyyyyyyyyyyyyyyyyyyyyyyyyyyyyyyyyyyyyyyyyyyyyyyyyyyyyyyyyyyyyyyyyyyyyyyyyyyyyyyyyyyyyyyyyyyyyyyyyyyyyyyyyyyyyyyyyyyyyyyyyyyyyyyyyyyyyyyyyyyyyyyyyyyyyyyyyyyyyyyyyyyyyyyyyyyyyyyyyyyyyyyyyyyyyyyyyyyyyyyyyyyyyyyyyyyyyyyyyyyyyyyyyyyyyyyyyyyyyyyyyyyyyyyyyyyyyyyyyyyyyyyyyyyyyyyyyyyyyyyyyyyyyyyyyyyyyyyyyyyyyyyyyyyyyyyyyyyyyyyyyyyyyyyyyyyyyyyyyyyyyyyyyyyyyyyyyyyyyyyyyyyyyyyyyyyyyyyyyyyyyyyyyyyyyyyyyyyyyyyyyyyyyyyyyyyyyyyyyyyyyyyyyyyyyyyyyyyyyyyyyyyyyyyyyyyyyyyyyyyyyyyyyyyyyyyyyyyyyyyyyyyyyyyyyyyyyyyyyyyyyyyyyyyyyyyyyyyyyyyyyyyyyyyyyyyyyyyyyyyyyyyyyyyyyyyyyyyyyyyyyyyyyyyyyyyyyyyyyyyyyyyyyyyyyyyyyyyyyyyyyyyyyyyyyyyyyyyyyyyyyyyyyyyyyyyyyyyyyyyyyyyyyyyyyyyyyyyyyyyyyyyyyyyyyyyyyyyyyyyyyyyyyyyyyyyyyyyyyyyyyyyyyyyyyyyyyyyyyyyyyyyyyyyyyyyy'},   # C12.F43
+    {'op': 'live', 'kind': 'corpus', 'botprefix': 'test!limnoria@bot.users.example.org', 'nick': 'a', 'chan': '#c', 'private': False, 'prefixNick': True, 'noticePriv': True, 'mores': True, 'length': 0, 'maximum': 50, 'instant': 1, 'number': 1, 'kwTo': 'bbbbbbbbbbbbbbbbbbbbbbbbb', 's': 'yyyyyyyyyyyyyyyyyyyyyyyyyyyyyyyyyyyyyyyyyyyyyyyyyyyyyyyyyyyyyyyyyyyyyyyyyyyyyyyyyyyyyyyyyyyyyyyyyyyyyyyyyyyyyyyyyyyyyyyyyyyyyyyyyyyyyyyyyyyyyyyyyyyyyyyyyyyyyyyyyyyyyyyyyyyyyyyyyyyyyyyyyyyyyyyyyyyyyyyyyyyyyyyyyyyyyyyyyyyyyyyyyyyyyyyyyyyyyyyyyyyyyyyyyyyyyyyyyyyyyyyyyyyyyyyyyyyyyyyyyyyyyyyyyyyyyyyyyyyyyyyyyyyyyyyyyyyyyyyyyyyyyyyyyyyyyyyyyyyyyyyyyyyyyyyyyyyyyyyyyyyyyyyyyyyyyyyyyyyyyyyyyyyyyyyyyyyyyyyyyyyyyyyyyyyyyyyyyyyyyyyyyyyyyyyyyyyyyyyyyyyyyyyyyyyyyyyyyyyyyyyyyyyyyyyyyyyyyyyyyyyyyyyyyyyyyyyyyyyyyyyyyyyyyyyyyyyyyyyyyyyyyyyyyyyyyyyyyyyyyyyyyyyyyyyyyyyyyyyyyyyyyyyyyyyyyyyyyyyyyyyyyyyyyyyyyyyyyyyyyyyyyyyyyyyyyyyyyyyyyyyyyyyyyyyyyyyyyyyyyyyyyyyyyyyyyyyyyyyyyyyyyyyyyyyyyyyyyyyyyyyyyyyyyyyyyyyyyyyyyyyyyyyyyyyyyyyyyyyyyyyyyyyyyyyyyyyyyyyyyyyyyyyyyyyyyyyyyyyyyyyyyyyyyyyyyyyyyyyyyyyyyyyyyyyyyyyyyyyyyyyyyyyyyyyyyyyyyyyyyyyyyyyyyyyyyyyyyyyyyyyyyyyyyyyyyyyyyyyyyyyyyyyyyyyyyyyyyyyyyyyyyyyyyyyyyyyyyyyyyyyyyyyyyyyyyyyyyyyyyyyyyyyyyyyyyyyyyyyyyyyyyyyyyyyyyyyyyyyyyyyyyyyyyyyyyyyyyyyyyyyyyyyyyyyyyyyyyyyyyyyyyyyyyyyyyyyyyyyyyyyyyyyyyyyyyyyyyyyyyyyyyyyyyyyyyyyyyyyyyyyyyyyyyyyyyyyyyyyyyyyyyyyyyyyyyyyyyyyyyyyyyyyyyyyyyyyyyyyyyyyyyyyyyyyyyyyyyyyyyyyyyyyyyyyyyyyyyyyyyyyyyyyyyyyyyyyyyyyyyyyyyyyyyyyyyyyyyyyyyyyyyyyyyyyyyyyyyyyyyyyyyyyyyyyyyyyyyyyyyyyyyyyyyyyyyyyyyyyyyyyyyyyyyyyyyyyyyyyyyyyyyyyyyyyyyyyyyyyy'},   # C12.F43 (to=)
     {'op': 'live', 'kind': 'corpus', 'botprefix': 'test!user@host.example', 'nick': 'alice', 'chan': '#chan', 'private': False, 'prefixNick': True, 'noticePriv': True, 'mores': True, 'length': 0, 'maximum': 50, 'instant': 1, 'number': 1, 's': '\x03²yyyyyyyyyyyyyyyyyyyyyyyyyyyyyyyyyyyyyyyyyyyyyyyyyy yyyyyyyyyyyyyyyyyyyyyyyyyyyyyyyyyyyyyyyyyyyyyyyyyy yyyyyyyyyyyyyyyyyyyyyyyyyyyyyyyyyyyyyyyyyyyyyyyyyy yyyyyyyyyyyyyyyyyyyyyyyyyyyyyyyyyyyyyyyyyyyyyyyyyy yyyyyyyyyyyyyyyyyyyyyyyyyyyyyyyyyyyyyyyyyyyyyyyyyy yyyyyyyyyyyyyyyyyyyyyyyyyyyyyyyyyyyyyyyyyyyyyyyyyy yyyyyyyyyyyyyyyyyyyyyyyyyyyyyyyyyyyyyyyyyyyyyyyyyy yyyyyyyyyyyyyyyyyyyyyyyyyyyyyyyyyyyyyyyyyyyyyyyyyy yyyyyyyyyyyyyyyyyyyyyyyyyyyyyyyyyyyyyyyyyyyyyyyyyy yyyyyyyyyyyyyyyyyyyyyyyyyyyyyyyyyyyyyyyyyyyyyyyyyy yyyyyyyyyyyyyyyyyyyyyyyyyyyyyyyyyyyyyyyyyyyyyyyyyy yyyyyyyyyyyyyyyyyyyyyyyyyyyyyyyyyyyyyyyyyyyyyyyyyy'},   # C12.F40
     {'op': 'live', 'kind': 'corpus', 'botprefix': 'test!user@host.example', 'nick': 'alice_in_wonderland', 'chan': '#chan', 'private': True, 'prefixNick': False, 'noticePriv': True, 'mores': True, 'length': 0, 'maximum': 50, 'instant': 1, 'number': 1, 's': 'yyyyyyyyyyyyyyyyyyyyyyyyyyyyyyyyyyyyyyyyyyyyyyyyyyyyyyyyyyyyyyyyyyyyyyyyyyyyyyyyyyyyyyyyyyyyyyyyyyyyyyyyyyyyyyyyyyyyyyyyyyyyyyyyyyyyyyyyyyyyyyyyyyyyyyyyyyyyyyyyyyyyyyyyyyyyyyyyyyyyyyyyyyyyyyyyyyyyyyyyyyyyyyyyyyyyyyyyyyyyyyyyyyyyyyyyyyyyyyyyyyyyyyyyyyyyyyyyyyyyyyyyyyyyyyyyyyyyyyyyyyyyyyyyyyyyyyyyyyyyyyyyyyyyyyyyyyyyyyyyyyyyyyyyyyyyyyyyyyyyyyyyyyyyyyyyyyyyyyyyyyyyyyyyyyyyyyyyyyyyyyyyyyyyyyyyyyyyyyyyyyyyyyyyyyyyyyyyyyyyyyyyyyyyyyyyyyyyyyyyyyyyyyyyyyyyyyyyyyyyyyyyyyyyyyyyyyyyyyyyyyyyyyyyyyyyyyyyyyyyyyyyyyyyyyyyyyyyyyyyyyyyyyyyyyyyyyyyyyyyyyyyyyyyyyyyyyyyyyyyyyyyyyyyyyyyyyyyyyyyyyyyyyyyyyyyyyyyyyyyyyyyyyyyyyyyyyyyyyyyyyyyyyyyyyyyyyyyyyyyyyyyyyyyyyyyyyyyyyyyyyyyyyyyyyyyyyyyyyyyyyyyyyyyyyyyyyyyyyyyyyyyyyyyyyyyyyyyyyyyyyyyyyyyyyyyyyyyyyyyyyyyyyyyyyyyyyyyyyyyyyyyyyyyyyyyyyyyyyyyyyyyyyyyyyyyyyyyyyyy'},   # C12.F42
     {'op': 'live', 'kind': 'corpus', 'botprefix': 'test!user@host.example', 'nick': 'alice', 'chan': '#ééé', 'private': False, 'prefixNick': True, 'noticePriv': True, 'mores': True, 'length': 0, 'maximum': 50, 'instant': 1, 'number': 1, 's': 'yyyyyyyyyyyyyyyyyyyyyyyyyyyyyyyyyyyyyyyyyyyyyyyyyyyyyyyyyyyyyyyyyyyyyyyyyyyyyyyyyyyyyyyyyyyyyyyyyyyyyyyyyyyyyyyyyyyyyyyyyyyyyyyyyyyyyyyyyyyyyyyyyyyyyyyyyyyyyyyyyyyyyyyyyyyyyyyyyyyyyyyyyyyyyyyyyyyyyyyyyyyyyyyyyyyyyyyyyyyyyyyyyyyyyyyyyyyyyyyyyyyyyyyyyyyyyyyyyyyyyyyyyyyyyyyyyyyyyyyyyyyyyyyyyyyyyyyyyyyyyyyyyyyyyyyyyyyyyyyyyyyyyyyyyyyyyyyyyyyyyyyyyyyyyyyyyyyyyyyyyyyyyyyyyyyyyyyyyyyyyyyyyyyyyyyyyyyyyyyyyyyyyyyyyyyyyyyyyyyyyyyyyyyyyyyyyyyyyyyyyyyyyyyyyyyyyyyyyyyyyyyyyyyyyyyyyyyyyyyyyyyyyyyyyyyyyyyyyyyyyyyyyyyyyyyyyyyyyyyyyyyyyyyyyyyyyyyyyyyyyyyyyyyyyyyyyyyyyyyyyyyyyyyyyyyyyyyyyyyyyyyyyyyyyyyyyyyyyyyyyyyyyyyyyyyyyyyyyyyyyyyyyyyyyyyyyyyyyyyyyyyyyyyyyyyyyyyyyyyyyyyyyyyyyyyyyyyyyyyyyyyyyyyyyyyyyyyyyyyyyyyyyyyyyyyyyyyyyyyyyyyyyyyyyyyyyyyyyyyyyyyyyyyyyyyyyyyyyyyyyyyyyyyyyyyyyyyyyyyyyyyyyyyyyyyyyyyyyyyy'},   # C12.F41
@@ -552,7 +630,7 @@ def run(ctx):
     run_unit(ctx, unit_inputs(ctx), ircutils, utils)
     rng = ctx.rng
     plan = (('plain', 120), ('mb', 100), ('ws', 60), ('fmt', 120), ('color0', 40), ('junction', 60), ('hostile', 80), ('many', 20),
-            ('nonascii', 15), ('privnick', 15))
+            ('nonascii', 15), ('privnick', 15), ('keywords', 150))
     for kind, base in plan:
         for _ in range(ctx.n(base)):
             check_live(ctx, gen_live(rng, kind), ircutils)
